@@ -35,5 +35,15 @@ Proof.
 Qed.
 Print Assumptions C14_records_are_registry.
 
+(* through inheritance (and any other way a registry gets filled): for a wrapper over a plain function the records are exactly the
+   registry the wrapper consults -- for an inheriting method that registry is the merged one of Props/C11.v (Sem/InheritHeap.v) *)
+Theorem C14_reports_registry : forall n h p t f,
+  o_attr (get_obj h p) = Some t -> o_wrapped (get_obj h p) = Some f ->
+  o_attr (get_obj h f) = None -> o_wrapped (get_obj h f) = None ->
+  get_contracts (S (S n)) h p [] =
+  (order_records (r_vals (get_reg h t)) ++ match r_patcher (get_reg h t) with Some q => [RHas q] | None => [] end)%list.
+Proof. exact introspection_reports_registry. Qed.
+Print Assumptions C14_reports_registry.
+
 Example C14_nonvacuous : plain_function (fst (new_obj heap0 obj0)) 0.
 Proof. cbn. repeat split; auto. Qed.
